@@ -68,17 +68,17 @@ func runOrder(sc Scenario) (res Result) {
 			if err != nil {
 				res.fail("order:sync-error", "sync failed: "+err.Error())
 			}
-		case <-time.After(2 * watchdog):
+		case <-subdrv.After(2 * watchdog):
 			res.fail("sync:blocked", "a concurrent explicit sync of the same publisher did not return")
 		}
 	}
 	// both events
-	deadline := time.Now().Add(watchdog)
+	deadline := subdrv.NewDeadline(watchdog)
 	for {
 		l.mu.Lock()
 		n := len(l.recv)
 		l.mu.Unlock()
-		if n >= 2 || time.Now().After(deadline) {
+		if n >= 2 || deadline.Expired() {
 			break
 		}
 		time.Sleep(200 * time.Microsecond)
@@ -92,7 +92,7 @@ func runOrder(sc Scenario) (res Result) {
 	close(l.start)
 	select {
 	case <-l.done:
-	case <-time.After(watchdog):
+	case <-subdrv.After(watchdog):
 		res.fail("listener:not-closed:fast", "listener channel not closed by Close")
 	}
 	l.mu.Lock()
@@ -172,20 +172,20 @@ func runTiming(sc Scenario) (res Result) {
 		}
 		for i := 0; i < n; i++ {
 			p.SetHead(i)
-			t0 := time.Now()
+			t0 := subdrv.RespNow()
 			ok, _ := subdrv.Call(watchdog, func() { _, _ = w.Sub.SyncAdChain(context.Background(), p.Info()) })
-			total += time.Since(t0)
+			total += subdrv.RespNow() - t0
 			if !ok {
 				r.fail("timing:sync-blocked", fmt.Sprintf("sync %d of %d did not return within %v with %d stalled listeners", i, n, watchdog, stalled))
 				break
 			}
-			t1 := time.Now()
+			t1 := subdrv.RespNow()
 			select {
 			case <-got:
-			case <-time.After(watchdog):
+			case <-subdrv.After(watchdog):
 				r.fail("timing:reader-blocked", fmt.Sprintf("the reading listener did not get notification %d within %v with %d stalled listeners", i, watchdog, stalled))
 			}
-			if d := time.Since(t1); d > maxLat {
+			if d := subdrv.RespNow() - t1; d > maxLat {
 				maxLat = d
 			}
 		}
@@ -194,7 +194,7 @@ func runTiming(sc Scenario) (res Result) {
 			close(l.start)
 			select {
 			case <-l.done:
-			case <-time.After(watchdog):
+			case <-subdrv.After(watchdog):
 				r.fail("listener:not-closed:"+l.spec.Kind, "listener channel not closed after Close")
 			}
 		}
@@ -293,7 +293,7 @@ func runBacklog(sc Scenario) (res Result) {
 				return
 			}
 		}
-		deadline := time.Now().Add(watchdog)
+		deadline := subdrv.NewDeadline(watchdog)
 		for {
 			ref.mu.Lock()
 			got := len(ref.recv)
@@ -301,7 +301,7 @@ func runBacklog(sc Scenario) (res Result) {
 			if got >= i+1 {
 				break
 			}
-			if time.Now().After(deadline) {
+			if deadline.Expired() {
 				res.fail("backlog:reader-blocked", fmt.Sprintf("the reading listener did not get notification %d of %d", i+1, n))
 				return
 			}
@@ -312,7 +312,7 @@ func runBacklog(sc Scenario) (res Result) {
 			case ev := <-sparse.ch:
 				sparseRecv = append(sparseRecv, ev)
 				sparseGot++
-			case <-time.After(watchdog):
+			case <-subdrv.After(watchdog):
 				res.fail("backlog:sparse-reader-blocked", "a listener with queued notifications could not read one")
 				return
 			}
@@ -330,7 +330,7 @@ func runBacklog(sc Scenario) (res Result) {
 		close(l.start)
 		select {
 		case <-l.done:
-		case <-time.After(2 * watchdog):
+		case <-subdrv.After(2 * watchdog):
 			res.fail("listener:not-closed:"+what, fmt.Sprintf("the channel of the listener drained after %s was not closed", what))
 		}
 		l.mu.Lock()
@@ -351,7 +351,7 @@ sparseLoop:
 				break sparseLoop
 			}
 			sparseRecv = append(sparseRecv, ev)
-		case <-time.After(2 * watchdog):
+		case <-subdrv.After(2 * watchdog):
 			res.fail("listener:not-closed:sparse", "the channel of the listener reading every tenth sync was not closed by Close")
 			break sparseLoop
 		}
@@ -359,7 +359,7 @@ sparseLoop:
 	close(ref.start)
 	select {
 	case <-ref.done:
-	case <-time.After(watchdog):
+	case <-subdrv.After(watchdog):
 	}
 	ref.mu.Lock()
 	res.Fwd = conv(ref.recv)
@@ -388,4 +388,196 @@ func firstN(l []Ev, k int) []Ev {
 		return l[:k]
 	}
 	return l
+}
+
+// runEntriesOverlap: an entries sync (SyncEntries) and an advertisement-chain sync of the same
+// publisher overlap.  Whichever is started first is held right inside handle (yield
+// handle:locked) until the other has entered handle too, or 200 ms: with the per-publisher
+// sync lock the second cannot enter, the hold expires and the syncs run one after the other;
+// without it they share the publisher's block-hook slot.  The notification of the ad sync
+// must carry the block count of that sync alone.
+func runEntriesOverlap(sc Scenario) (res Result) {
+	res.Sc = sc
+	t0 := time.Now()
+	variant := sc.Rounds[0][0].Kind // entries-first | ad-first
+	p := subdrv.NewPub(0, sc.Seed)
+	defer p.Close()
+	p.Extend(4)
+	ents := p.ExtendEntries(3)
+	pubs := []*subdrv.Pub{p}
+	w := subdrv.NewWorld(pubs)
+	rules := []subdrv.Rule{{Point: "handle:locked", Peer: 0, Nth: 1, Until: "handle:locked", UntilPeer: 0, UntilNth: 2, MaxMs: 200}}
+	sched := subdrv.NewSched(pubs, rules, nil, 0)
+	sched.Install()
+	defer sched.Uninstall()
+	closed := false
+	defer func() {
+		if !closed {
+			subdrv.Call(watchdog, func() { w.Sub.Close() })
+		}
+	}()
+	l := &liveListener{spec: ListenerSpec{Kind: "fast", RegRound: -1, CanRound: -1}, done: make(chan struct{}), start: make(chan struct{})}
+	l.ch, l.cancel = w.Sub.OnSyncFinished()
+	go l.reader()
+	const head = 2
+	p.SetHead(head)
+	entDone, adDone := make(chan error, 1), make(chan error, 1)
+	runEnt := func() { entDone <- w.Sub.SyncEntries(context.Background(), p.Info(), ents[0]) }
+	runAd := func() { _, err := w.Sub.SyncAdChain(context.Background(), p.Info()); adDone <- err }
+	if variant == "entries-first" {
+		go runEnt()
+	} else {
+		go runAd()
+	}
+	if !sched.WaitFor("handle:locked", 0, 1, watchdog) {
+		res.fail("overlap:setup", "the first sync never entered handle")
+		return
+	}
+	if variant == "entries-first" {
+		go runAd()
+	} else {
+		go runEnt()
+	}
+	for _, ch := range []chan error{entDone, adDone} {
+		select {
+		case err := <-ch:
+			if err != nil {
+				res.fail("overlap:sync-error", "sync failed: "+err.Error())
+			}
+		case <-subdrv.After(2 * watchdog):
+			res.fail("sync:blocked", "overlapping entries / ad syncs of one publisher did not both return")
+		}
+	}
+	deadline := subdrv.NewDeadline(watchdog)
+	for {
+		l.mu.Lock()
+		n := len(l.recv)
+		l.mu.Unlock()
+		if n >= 1 || deadline.Expired() {
+			break
+		}
+		time.Sleep(200 * time.Microsecond)
+	}
+	subdrv.Call(watchdog, func() { w.Sub.Close() })
+	closed = true
+	close(l.start)
+	select {
+	case <-l.done:
+	case <-subdrv.After(watchdog):
+		res.fail("listener:not-closed:fast", "listener channel not closed by Close")
+	}
+	l.mu.Lock()
+	for _, e := range l.recv {
+		res.Fwd = append(res.Fwd, Ev{Sid: 0, Pub: 0, Cid: p.Index(e.Cid), Cnt: e.Count, Err: e.Err != nil})
+	}
+	l.mu.Unlock()
+	res.Listeners = []ObsListener{{Spec: l.spec, Recv: res.Fwd, Closed: true}}
+	want := head + 1
+	if len(res.Fwd) != 1 {
+		res.fail(fmt.Sprintf("event:count-%d", len(res.Fwd)), fmt.Sprintf("one updating sync, %d notifications", len(res.Fwd)))
+	} else {
+		res.Events = append(res.Events, EvCheck{Ev: res.Fwd[0], Sid: 0, Async: false, Pub: 0, Cid: head, Blocks: want})
+		if e := res.Fwd[0]; e.Cnt != want || e.Cid != head {
+			res.fail(fmt.Sprintf("count:entries-overlap:%s:got-%d-want-%d", variant, e.Cnt, want),
+				fmt.Sprintf("an entries sync and an advertisement sync (to #%d, %d blocks) of one publisher overlapped (%s): the advertisement sync's notification says cid #%d, count %d", head, want, variant, e.Cid, e.Cnt))
+		}
+	}
+	res.DurMs = float64(time.Since(t0).Microseconds()) / 1000
+	return res
+}
+
+// runCloseDuringSync: n listeners; a first sync completes normally; a second one is held after
+// handle returned (yield sync:handled or event:latest-set) until doClose has closed s.closing,
+// while Close is called.  Close lets the explicit sync finish, so its notification is sent
+// while the subscriber is closing: every listener must still receive both notifications,
+// in order, exactly once, and then find its channel closed.
+func runCloseDuringSync(sc Scenario) (res Result) {
+	res.Sc = sc
+	t0 := time.Now()
+	point := sc.Rounds[0][0].Kind // the yield point to hold at
+	p := subdrv.NewPub(0, sc.Seed)
+	defer p.Close()
+	p.Extend(4)
+	pubs := []*subdrv.Pub{p}
+	w := subdrv.NewWorld(pubs)
+	rules := []subdrv.Rule{{Point: point, Peer: 0, Nth: 2, Until: "close:closing-closed", UntilPeer: -1, UntilNth: 1, MaxMs: 1000}}
+	sched := subdrv.NewSched(pubs, rules, nil, 0)
+	sched.Install()
+	defer sched.Uninstall()
+	closed := false
+	defer func() {
+		if !closed {
+			subdrv.Call(watchdog, func() { w.Sub.Close() })
+		}
+	}()
+	var ls []*liveListener
+	for _, spec := range sc.Listeners {
+		l := &liveListener{spec: spec, done: make(chan struct{}), start: make(chan struct{})}
+		l.ch, l.cancel = w.Sub.OnSyncFinished()
+		go l.reader()
+		ls = append(ls, l)
+	}
+	p.SetHead(1)
+	if _, err := w.Sub.SyncAdChain(context.Background(), p.Info()); err != nil {
+		res.fail("closing:setup", err.Error())
+		return
+	}
+	p.SetHead(3)
+	syncDone := make(chan error, 1)
+	go func() { _, err := w.Sub.SyncAdChain(context.Background(), p.Info()); syncDone <- err }()
+	if !sched.WaitFor(point, 0, 2, watchdog) {
+		res.fail("closing:setup", "the second sync never reached "+point)
+		return
+	}
+	ok, _ := subdrv.Call(2*watchdog, func() { w.Sub.Close() })
+	closed = true
+	if !ok {
+		res.fail("close:blocked", "Close did not return")
+	}
+	select {
+	case err := <-syncDone:
+		if err != nil {
+			res.fail("closing:sync-error", "an explicit sync running when Close started failed: "+err.Error())
+		}
+	case <-subdrv.After(watchdog):
+		res.fail("sync:blocked", "the explicit sync did not return")
+	}
+	want := []Ev{{Sid: 0, Pub: 0, Cid: 1, Cnt: 2}, {Sid: 1, Pub: 0, Cid: 3, Cnt: 2}}
+	res.Fwd = want // what the property demands; every listener is compared with it
+	lost := 0
+	for i, l := range ls {
+		close(l.start)
+		select {
+		case <-l.done:
+		case <-subdrv.After(watchdog):
+			res.fail("listener:not-closed:"+l.spec.Kind, fmt.Sprintf("listener %d: channel not closed by Close", i))
+		}
+		l.mu.Lock()
+		var recv []Ev
+		for _, e := range l.recv {
+			ci := p.Index(e.Cid)
+			recv = append(recv, Ev{Sid: ci / 2, Pub: 0, Cid: ci, Cnt: e.Count, Err: e.Err != nil})
+		}
+		o := ObsListener{Spec: l.spec, Recv: recv, Closed: l.closed}
+		l.mu.Unlock()
+		res.Listeners = append(res.Listeners, o)
+		if !windowOK(want, o) {
+			lost++
+		}
+	}
+	if lost > 0 {
+		res.fail(fmt.Sprintf("closing:event-lost:%s:%d-listeners", point, len(ls)),
+			fmt.Sprintf("an explicit sync was at %s when Close signalled closing and then completed: %d of the %d listeners registered before did not receive exactly its notification after the earlier one (e.g. %s)", point, lost, len(ls), evs(firstBad(want, res.Listeners))))
+	}
+	res.DurMs = float64(time.Since(t0).Microseconds()) / 1000
+	return res
+}
+
+func firstBad(want []Ev, ls []ObsListener) []Ev {
+	for _, l := range ls {
+		if !windowOK(want, l) {
+			return l.Recv
+		}
+	}
+	return nil
 }
